@@ -1191,6 +1191,11 @@ get_str_opt(struct archive_write *a, struct archive_string *s,
     size_t maxsize, const char *key, const char *value)
 {
 
+	if (value == NULL) {
+		archive_set_error(&a->archive, ARCHIVE_ERRNO_MISC,
+		    "Invalid value(empty) for option ``%s''", key);
+		return (ARCHIVE_FATAL);
+	}
 	if (strlen(value) > maxsize) {
 		archive_set_error(&a->archive, ARCHIVE_ERRNO_MISC,
 		    "Value is longer than %zu characters "
